@@ -13,7 +13,7 @@ IDLE, OPEN, BUSY, CLOSED = 1, 2, 3, 4
 SERIAL_SKELETONS = ['open', 'one', 'two', 'after-timeout', 'chunked', 'timeout-in-write', 'expired-on-arrival',
                     'retry-from-handler', 'request-during-reconnect']
 MUX_SKELETONS = ['open', 'one', 'three', 'timed-out+one', 'queued', 'ping', 'silent-inflight', 'requests-while-opening',
-                 'retry-from-handler', 'stalled-peer']
+                 'retry-from-handler', 'stalled-peer', 'pings-ignored-under-traffic']
 FAULTS = ['error', 'eof', 'refuse', 'silence']
 OPS = [('connect', 0)] + [('send', i) for i in range(4)] + [('recv', i) for i in range(10)]
 
@@ -45,7 +45,7 @@ class C08(BaseCheck):
   ID = 'C08'
   LEVEL = 'fault_enumeration'
   RULE = ('enumerated space = {serial Thrift transport x skeletons open/one/two/after-timeout/chunked/timeout-in-write (deadline fires inside a blocked partial write)/expired-on-arrival (deadline already past when the request reaches the transport)/retry-from-handler (the error handler of a failed request hands a follow-up to the transport synchronously, below the timeout sink)/request-during-reconnect (a second request reaches the transport while it re-establishes its connection after a timeout, 0.2 s connect latency), '
-          'ThriftMux transport x skeletons open(incl. initial ping)/one/three concurrent/timed-out+one/'
+          'ThriftMux transport x skeletons stalled-peer (the peer reads and answers nothing: one request blocked in its write, two queued, the ping behind them must still bring the transport down)/pings-ignored-under-traffic (one answered request per second, no ping answered any more)/open(incl. initial ping)/one/three concurrent/timed-out+one/'
           'queued(stalled writer)/ping/requests-while-opening/silent-inflight (peer goes silent with a request in flight and a timed-out one unacknowledged)} + {reply and close (FIN/RST) in one instant on request 0/1/2} x connection ordinal {0,1} x op {connect; send 0-3; recv 0-9} x fault '
           '{exception, EOF, refusal, silence}; quick and thorough both sweep it completely (thorough adds '
           'seeded timing variants per point). A point whose planned fault never fires (the skeleton performs '
@@ -64,7 +64,7 @@ class C08(BaseCheck):
   REQUIRED_ANCHORS = ANCHORS
   REQUIRED_CLASSES = ('thrift', 'mux', 'fault:connect', 'fault:send', 'fault:recv', 'kind:error', 'kind:eof',
                       'kind:refuse', 'kind:silence', 'reconnect-fault', 'probe', 'ping-silence', 'reply-and-close-same-instant', 'timeout-in-write', 'silent-with-inflight', 'requests-while-opening',
-                      'expired-on-arrival', 'retry-from-handler', 'request-during-reconnect', 'stalled-peer')
+                      'expired-on-arrival', 'retry-from-handler', 'request-during-reconnect', 'stalled-peer', 'pings-ignored-under-traffic')
   ASSUMPTIONS = ('a silence fault (peer stops answering without closing) legitimately leaves the transport '
                  'open; only the probe clause applies then',)
   QUICK_WALL = 180
@@ -342,6 +342,26 @@ class C08(BaseCheck):
       elif sk == 'requests-while-opening':
         # a peer that has gone silent is only found out by the next ping (30-40 s + 5 s grace)
         env.advance(50.0 if fkind == 'silence' else 1.5)
+      elif sk == 'pings-ignored-under-traffic':
+        # the peer keeps answering requests but no ping any more (a wedged control path): steady
+        # traffic, one answered request per second; the unanswered ping must still bring the
+        # transport down within its 5 s, whatever else arrives meanwhile
+        classes.add('pings-ignored-under-traffic')
+        request()
+        env.advance(1.0)
+        plan['ping-drop-after'] = len(srv.pings)
+        t_from = env.now
+        for _ in range(47):
+          if transport.state == CLOSED:
+            break
+          request(T=5.0, act={'delay': 0.002})
+          env.advance(1.0)
+        if not net.faults_fired and not open_failed:
+          out.obligations += 1
+          if transport.state != CLOSED or not faults:
+            out.violate('ping:no-shutdown', 'the peer has answered requests but no ping for %.0fs (pings are due every 30-40 s, '
+                        '5 s grace; pings it ignored: %d) and the transport reports state %s (fault signals: %d)' % (
+                          env.now - t_from, len(srv.pings) - plan['ping-drop-after'], transport.state, len(faults)), facts0)
       elif sk == 'stalled-peer':
         # the peer stalls completely (reads nothing, answers nothing, connection up): one request is
         # blocked inside its write, two more wait in the send queue behind it; the keep-alive ping
